@@ -1721,3 +1721,26 @@ def native_attr(engine, run, obj, attr):   # noqa: F811
             return _reduce(run2, "sum", obj.at(j), obj.name, dict(index=j, length=obj.length))
         return SNative(red, "ndarray.sum")
     return _prev_native_attr_sum(engine, run, obj, attr)
+
+
+def _np_reduce_ext(attr):
+    def f(engine, run, a, k):
+        v = a[0] if a else None
+        if len(a) != 1 or k:
+            raise Undecided(f"np.{attr} with options")
+        if isinstance(v, SCell):
+            if v.space == "arg":
+                # an array ARGUMENT of arbitrary shape: zero-size arrays are valid arguments of element-wise functions, numpy's reductions without
+                # identity raise ValueError for them
+                run.oblige(f"np.{attr} of an array argument that may be empty (numpy raises ValueError for zero-size arrays)", z3.BoolVal(False),
+                           kind="implicit", assume_after=False)
+            return engine.invoke(run, native_attr(engine, run, v, attr), [], {})
+        if is_num(v) or z3.is_expr(v):
+            run.trust(f"numpy: np.{attr} of a scalar is the scalar")
+            return v
+        raise Undecided(f"np.{attr} of {type(v).__name__}")
+    return f
+
+
+for _nm in ("min", "max"):
+    EXTERNALS[f"numpy.{_nm}"] = EXTERNALS[f"numpy.a{_nm}"] = _np_reduce_ext(_nm)
